@@ -101,6 +101,8 @@ def make_map(clsname, rng, style=0):
             v = _ugly_float(rng)
             if style == 2:
                 v = np.float64(v)
+            elif style == 3:
+                v = np.float32(v)  # a parameter read from single-precision data
             args.append(v)
         else:
             v = _ugly_float(rng, 0.2, 2.0)
@@ -142,11 +144,11 @@ def make_obj(desc):
             if recipe and rng.chance(0.15):
                 recipe.append(recipe[rng.below(len(recipe))])  # a map equal to an earlier one
             else:
-                recipe.append((rng.choice(names), rng.below(2**40), rng.below(3)))
+                recipe.append((rng.choice(names), rng.below(2**40), rng.below(4)))
         maps = [make_map(nm, Rng(sub), style) for nm, sub, style in recipe]
         return td.FeatureList(maps), "featurelist"
     if k == "featurelist_all":
-        maps = [make_map(nm, rng, rng.below(3)) for nm in all_map_names()]
+        maps = [make_map(nm, rng, rng.below(4)) for nm in all_map_names()]
         return td.FeatureList(maps), "featurelist"
     if k == "spline":
         N1 = desc.get("N1", 4)
@@ -200,6 +202,16 @@ def eval_featurelist(fl, seed):
         fl.fill_derivs_(dfdx, dfdy, x)
         _add(h, dfdx)
         _add(h, fl(x.T.copy()))
+        # "any input": single-precision descriptors too (NumPy's promotion rules make the
+        # result depend on whether a parameter is a Python number, a NumPy scalar or an array)
+        x32 = x.astype(np.float32)
+        try:
+            y32 = np.zeros((fl.nfeat, x.shape[1]), dtype=np.float32)
+            fl.fill_vals_(y32, x32)
+            _add(h, y32.astype(np.float64))
+            _add(h, np.asarray(fl(x32.T.copy()), dtype=np.float64))
+        except Exception as e:
+            h.update(("f32:" + type(e).__name__).encode())
     for b in fl.bounds_list:
         _add(h, np.asarray([float(b[0]), float(b[1])]))
     return h.hexdigest()
@@ -222,6 +234,12 @@ def eval_spline(fe, seed):
     fe(X1, res2, dres2)
     _add(h, res2)
     _add(h, dres2)
+    try:
+        r32, d32 = fe(X1.astype(np.float32))
+        _add(h, np.asarray(r32, dtype=np.float64))
+        _add(h, np.asarray(d32, dtype=np.float64))
+    except Exception as e:
+        h.update(("f32:" + type(e).__name__).encode())
     return h.hexdigest()
 
 
@@ -318,14 +336,33 @@ def dict_roundtrip(obj, kind):
     from ciderpress.dft.transform_data import FeatureList, FeatureNormalizer
     from ciderpress.dft.xc_evaluator import SplineSetEvaluator
 
+    import copy
+
     if kind == "featurelist":
-        o2 = FeatureList.from_dict(obj.as_dict())
+        d = obj.as_dict()
+        d0 = copy.deepcopy(d)
+        o2 = FeatureList.from_dict(d)
+        o2b = FeatureList.from_dict(d)  # the caller's state dict is used again
         # and element-wise through the code table
         o3 = FeatureList([FeatureNormalizer.from_dict(m.as_dict()) for m in obj.feat_list])
-        return [o2, o3]
+        return [o2, o2b, o3, FeatureList.from_dict(d0)] if _same_state(d, d0) else [o2, o2b, o3, "state-dict-changed-by-from_dict"]
     if kind == "spline":
-        return [SplineSetEvaluator.from_dict(obj.to_dict())]
+        d = obj.to_dict()
+        d0 = copy.deepcopy(d)
+        o2 = SplineSetEvaluator.from_dict(d)
+        o2b = SplineSetEvaluator.from_dict(d)
+        return [o2, o2b] if _same_state(d, d0) else [o2, o2b, "state-dict-changed-by-from_dict"]
     return []
+
+
+def _same_state(a, b):
+    if isinstance(a, dict):
+        return isinstance(b, dict) and sorted(a) == sorted(b) and all(_same_state(a[k], b[k]) for k in a)
+    if isinstance(a, (list, tuple)):
+        return isinstance(b, (list, tuple)) and len(a) == len(b) and all(_same_state(x, y) for x, y in zip(a, b))
+    if isinstance(a, np.ndarray) or isinstance(b, np.ndarray):
+        return np.array_equal(np.asarray(a), np.asarray(b))
+    return a == b or (a != a and b != b)
 
 
 def type_sig(obj, kind):
@@ -475,6 +512,9 @@ def run_enum(spec, real_dir=None):
         # 0. dict round trip
         try:
             for o2 in dict_roundtrip(obj, kind):
+                if isinstance(o2, str):
+                    ck.v("roundtrip:%s:%s:%s" % (S("from_dict"), D, o2), "from_dict changed the state dictionary it was given", rp)
+                    continue
                 d2 = EVAL[kind](o2, pseed) + "|" + type_sig(o2, kind)
                 ck.stats["dict_roundtrips"] += 1
                 if d2 != ref:
@@ -1146,11 +1186,11 @@ MODEL_GRID = [
 def plan(tier, seed, args):
     rng = Rng(derive(seed, PROP, "plan"))
     cases = []
-    ndraw = 3 if tier == "quick" else 12
+    ndraw = 4 if tier == "quick" else 12
     # enumerated: every registered map class x draws x styles
     for nm in all_map_names():
         for d in range(ndraw):
-            desc = {"obj": "map", "cls": nm, "style": d % 3, "seed": rng.below(10**6)}
+            desc = {"obj": "map", "cls": nm, "style": d % 4, "seed": rng.below(10**6)}
             cases.append({"kind": "enum", "desc": desc, "fmt": "yaml"})
     for d in range(ndraw):
         cases.append({"kind": "enum", "desc": {"obj": "featurelist_all", "seed": rng.below(10**6)}, "fmt": "yaml"})
